@@ -248,6 +248,10 @@ func (m *Model) Draw(win vaxis.Window) {
 
 	chars := m.content
 	cursor := col
+	// No need to stay scrolled when everything fits
+	if widthToCursor(chars, len(chars), 0)+col+scrolloff < winW {
+		m.offset = 0
+	}
 	// Make sure we've scrolled enough to have the cursor in the view
 	// (scrolling past the cursor cannot help in a window narrower than
 	// the prompt and the scroll margin)
